@@ -193,6 +193,7 @@ def helperKindOf (j : Json) : Option HelperKind :=
   | some "vret" => some .vret
   | some "counter" => some .counter
   | some "wr" => some .wr
+  | some "wfmt" => some .wr   -- the harness helper that writes the same text through `write!` with a format argument
   | some "macro" => (fld j "sig").map (fun s => .macroH (macroSigOf s))
   | _ => none
 
